@@ -12,7 +12,7 @@ def run_scenario(sc, timeout=90):
     env = dict(os.environ, RAYON_NUM_THREADS=str(sc["threads"]), RUST_BACKTRACE="0")
     try:
         r = subprocess.run([vlib.BIN, "c07", "scenario", arg], stdout=subprocess.PIPE, stderr=subprocess.DEVNULL,
-                           text=True, timeout=timeout, env=env)
+                           text=True, timeout=timeout, env=env, preexec_fn=vlib.limit_memory)
     except subprocess.TimeoutExpired:
         return {"hash": None, "all": [], "panic": "timeout (%d s)" % timeout}
     for line in r.stdout.splitlines():
